@@ -562,7 +562,9 @@ impl<Backing : AsRef<[u32]> + AsMut<[u32]>> DrawTarget<Backing> {
                 mask: mask.clone(),
             },
             _ => Clip {
-                rect: rect,
+                // everything that consults the clip (layers, span buffers) assumes
+                // that it lies within the surface
+                rect: rect.intersection_unchecked(&intrect(0, 0, self.width, self.height)),
                 mask: None,
             },
         };
